@@ -850,7 +850,7 @@ def run(ctx):
                        "pool object's value is probed; generated heaps are acyclic, the two F14 triggers are fixed "
                        "corpus cases; non-trivial = some handler call observed; distinct = distinct operation list")
     rnd = random.Random(ctx.seed)
-    n, maxmut = (500, 8) if ctx.tier == "quick" else (6000, 14)
+    n, maxmut = (500, 8) if ctx.tier == "quick" else (7500, 14)
     if ctx.replay:
         cases = [json.load(open(ctx.replay))["replay"]["case"]]
     else:
